@@ -31,7 +31,7 @@ from verif.stubs.pydeque import patched_deque
 from verif.stubs.untraced import fast_jinja
 
 PROPERTY = "C20"
-B = h.bounds(quick=dict(NE=44), thorough=dict(NE=44))
+B = h.bounds(quick=dict(NE=46), thorough=dict(NE=46))
 FUNCTIONS = ["constructors and run/__call__/fill/compute/request/reset of the public elements of "
              "lena.core, lena.context, lena.flow, lena.math, lena.meta, lena.output, lena.structures, "
              "lena.variables listed in harness/c20_names.py:ENTRIES"]
@@ -247,6 +247,22 @@ def e_cache(a, b, x):
         return res
 
 
+def e_cache_drop_fails(a, b, x):
+    """os.remove fails although the cache file exists (e.g. a directory or a
+    protected file): documented LenaEnvironmentError."""
+    with world([cache_mod]) as fs:
+        c = lena.flow.Cache("c.pkl")
+        c._dump, c._load = fs.dump, fs.load
+        list(c.run(iter([x])))
+
+        def failing_remove(path):
+            raise OSError(13, "Permission denied", path)
+        fs.os.remove = failing_remove
+        if a % 2:
+            del fs.files["c.pkl"]
+        c.drop_cache()
+
+
 def e_sequence(a, b, x):
     s = lena.core.Sequence(*_sel([(lambda v: v,), (), (5,), (lena.math.Sum(), None)], a))
     return list(s.run(iter([x])))
@@ -420,7 +436,7 @@ ENTRIES = [e_running_chunk, e_select_context, e_mean, e_variance, e_vectorize, e
            e_delete_context, e_context_funcs, e_context_class, e_format, e_selector, e_not, e_filter,
            e_group_by, e_group_plots, e_map_group, e_group_scale, e_count, e_slice, e_iterators,
            e_count_from_bad, e_run_if, e_progress_print, e_drop_context, e_zip, e_cache, e_sequence,
-           e_source, e_split, e_split_methods, e_fill_seqs, e_adapters, e_fill_request, e_meta, e_variable,
+           e_cache_drop_fails, e_source, e_split, e_split_methods, e_fill_seqs, e_adapters, e_fill_request, e_meta, e_variable,
            e_compose_combine, e_histogram, e_histogram_el, e_hist_funcs, e_graph, e_structure_elements,
            e_output, e_math, e_vector3, e_alter]
 
@@ -446,8 +462,6 @@ def check_entry(e: int, a: int, b: int, x: int) -> bool:
     e = h.concrete(e, 0, len(ENTRIES) - 1)
     a = h.concrete(a, 0, 5)
     b = h.concrete(b, 0, 5)
-    if e == 44 and h.kf("none"):
-        return True
     try:
         with quiet():
             ENTRIES[e](a, b, x)
@@ -465,6 +479,6 @@ def check_entry(e: int, a: int, b: int, x: int) -> bool:
 
 
 CONDITIONS = [
-    dict(fn="check_entry", shards=(45, 45), budget=(60, 600),
+    dict(fn="check_entry", shards=(46, 46), budget=(60, 600),
          smoke=["check_entry(2, 0, 1, 1)", "check_entry(10, 0, 0, 1)", "check_entry(41, 1, 0, 1)"]),
 ]
